@@ -143,7 +143,7 @@ def kani_cmd(unit, harness_filter=None, jobs=NCPU, extra=None, timeout_s=None):
     if unit.get("no_default_features"):
         cmd += ["--no-default-features"]
     cmd += ["-Z", "unstable-options"]
-    for z in unit.get("z", []):
+    for z in sorted(set(unit.get("z", [])) | {"function-contracts"}):
         cmd += ["-Z", z]
     if jobs and jobs > 1:
         cmd += ["-j", str(jobs)]
